@@ -58,6 +58,8 @@ class Target:
     params = None            # parameter names for slices
     pure = ()
     inline = {}              # global name -> (file, qualname): interpreted from its real source
+    inline_class = {}        # State handle -> (file, class): methods missing on the stub come from the real class
+    inline_methods = {}      # State handle -> (file, class, [method names]) bound to that stub, from real source
     set_iter = 'error'
     max_paths = 4000
     trusted = ()             # human-readable assumed contracts (externs) -> evidence.trusted_base
